@@ -9,7 +9,7 @@ import itertools
 import numpy as np
 
 from checks import specgen as SG
-from checks.common import hash_tag, relayout, xf_build, xf_names
+from checks.common import hash_tag, relayout, xf_build, xf_names, orthonormal_completion
 from qmc import gen as G
 from qmc import oracle as O
 from qmc.loader import load
@@ -88,6 +88,13 @@ def cases(tier, seed):
                 for arg in args:
                     for P in (0, 2, 5):
                         out.append({"key": f"spectrum/{sname}/{fn}/{m}x{n}/P={P}/arg={arg}", "fn": fn, "m": m, "n": n, "r": p_, "R": p_, "P": P, "arg": arg, "vals": sv_, "S": 3})
+    # the sketch is the scheduler, and the harness owns it: for a given global seed the first Gaussian sketch column o_0 is known, so the
+    # input can be built with A o_0 = 0 exactly-to-rounding (rank(A) = R, oversample >= 1: the remaining columns still span the range)
+    for (m, n, R) in ((6, 5, 2), (5, 7, 3), (8, 6, 4), (6, 9, 3)):
+        for fn, args in (("rand_qsvd", (0, 1)), ("pass_eff_qsvd", (2, 3))):
+            for arg in args:
+                for P in (1, 2, 4):
+                    out.append({"key": f"advsketch/{fn}/{m}x{n}/R={R}/P={P}/arg={arg}", "fn": fn, "m": m, "n": n, "r": R, "R": R, "P": P, "arg": arg, "adv": True, "S": 3})
     # whole-matrix scalings (thresholds inside the algorithms must be relative)
     for m, n in ((3, 3), (4, 3), (3, 4)):
         for e in (-50, 40):
@@ -96,7 +103,52 @@ def cases(tier, seed):
     return _dedupe(out)
 
 
+def run_adv(case, seed):
+    lib = load()
+    m, n, R, P = case["m"], case["n"], case["R"], case["P"]
+    f = getattr(lib.qsvd, case["fn"])
+    fails, evals, ok_runs = [], 0, 0
+    for sd in range(case.get("S", 3)):
+        np.random.seed(sd)
+        o0 = np.random.randn(n, R + P)[:, 0]  # the first column of the sketch this seed will deliver (both routines draw randn(n, R+P) first)
+        fill = G.Fill(seed, stream=hash_tag(f"adv/{m}x{n}/{R}/{sd}"))
+        g0 = np.zeros((n, 1, 4))
+        g0[:, 0, 0] = o0
+        Wfull = orthonormal_completion(np.concatenate([g0, fill.quat(n, R, bits=4, lo=-24, hi=24)], axis=1))
+        W = Wfull[:, 1 : R + 1]  # orthonormal, orthogonal to o_0
+        Bm = orthonormal_completion(fill.quat(m, R, bits=4, lo=-24, hi=24))
+        sig = np.array([4.0, 2.0, 1.0, 0.5][:R])
+        A = O.qmatmul(O.qmatmul(Bm, G.diag_real(sig.tolist(), R, R)), O.qH(W))
+        nA = O.fro(A)
+        tags = {"fn": case["fn"], "m": m, "n": n, "R": R, "P": P, "arg": case["arg"], "seed": sd, "r_lt_R": False, "repeated": False, "illcond": False}
+        np.random.seed(sd)
+        ok, res = call(f, G.to_quat(A), R, P, case["arg"])
+        evals += 1
+        if not ok:
+            fails.append(fail("raised", f"seed {sd}: {type(res).__name__}: {res}", **tags))
+            continue
+        U, s_, V = G.from_quat(res[0]), np.asarray(res[1], float), G.from_quat(res[2])
+        if U.shape[:2] != (m, R) or V.shape[:2] != (n, R) or s_.shape != (R,) or not (O.is_finite(U) and O.is_finite(V)):
+            fails.append(fail("shapes", f"seed {sd}", **tags))
+            continue
+        dU, dV = O.unitarity_defect(U), O.unitarity_defect(V)
+        if dU > 1e-9:
+            fails.append(fail("U_orthonormal", f"seed {sd} (first sketch column in null(A)): ||U^H U - I|| = {dU:.3e}", dev_over_cond_u=dU / (8 * O.U), **tags))
+        if dV > 1e-9:
+            fails.append(fail("V_orthonormal", f"seed {sd} (first sketch column in null(A)): ||V^H V - I|| = {dV:.3e}", dev_over_cond_u=dV / (8 * O.U), **tags))
+        if np.any(s_ > sig * (1 + 1e-9) + 1e-10 * nA):
+            fails.append(fail("s_i<=sigma_i", f"seed {sd}: s = {s_.tolist()} sigma = {sig.tolist()}", **tags))
+        err = O.fro(A - O.qmatmul(O.qmatmul(U, G.diag_real(s_, R, R)), O.qH(V)))
+        if err > 1e-8 * nA:
+            fails.append(fail("exact_on_low_rank", f"seed {sd}: rank {R} = R, the first sketch column lies in null(A), oversample {P}: error {err:.3e}", **tags))
+        ok_runs += 1
+    return {"key": case["key"], "fails": fails[:24], "nontrivial_n": evals, "evals": evals, "transitions": evals, "traces": ok_runs - len({f["tags"].get("seed") for f in fails}),
+            "digest": case["key"], "path": f"{case['fn']},adversarial_sketch", "obs": [f["clause"] for f in fails]}
+
+
 def run_case(case, seed):
+    if case.get("adv"):
+        return run_adv(case, seed)
     lib = load()
     m, n, r, R, P = case["m"], case["n"], case["r"], case["R"], case["P"]
     p = min(m, n)
